@@ -8,7 +8,7 @@ bits.  A stride taken from another quantity that happens to coincide in the stan
 degree factor itself) makes the prover divide a polynomial that is not the constraint polynomial: honest proofs stop verifying for
 the configurations where the two differ."""
 from . import poly
-from .facts import walk
+from .facts import walk, pat_binds
 
 LDE_READS = ('get_lde_values', 'get_lde_values_packed')
 
@@ -27,6 +27,9 @@ def check(F, ck, rid, q, crate):
     fn = fns[0]
     E = poly.Ev(F)
     init, env = {}, {}
+    for p in fn.params:
+        for b in pat_binds(p):
+            env[b['id']] = poly.sym('@' + b['n'])
     for x in walk(fn.body):
         if x.get('k') == 'Let' and 'i' in x and x['p'].get('k') == 'Bind':
             init[x['p']['id']] = x['i']
@@ -41,12 +44,16 @@ def check(F, ck, rid, q, crate):
         if n.get('k') == 'Local' and n['id'] in init and depth < 4:
             return exponent(init[n['id']], depth + 1)
         if n.get('k') == 'Bin' and n['op'] == 'Shl':
-            l = _strip(n['l'])
-            if l.get('k') == 'Lit' and l.get('v') == 1:
+            el = exponent(n['l'], depth + 1)
+            if el is not None:
                 try:
-                    return E.ev(fn, n['r'], env, 3)
+                    return poly.add(el, E.ev(fn, n['r'], env, 3))
                 except poly.Unknown:
                     return None
+        if n.get('k') == 'Bin' and n['op'] in ('Div', 'Mul'):
+            el, er = exponent(n['l'], depth + 1), exponent(n['r'], depth + 1)
+            if el is not None and er is not None:
+                return poly.add(el, er, -1 if n['op'] == 'Div' else 1)
         if n.get('k') == 'Lit' and n.get('lk') == 'int' and int(n['v']) > 0 and int(n['v']) & (int(n['v']) - 1) == 0:
             return poly.const(int(n['v']).bit_length() - 1)
         return None
